@@ -369,6 +369,9 @@ def run(h: Harness):
                                f"{sname}.apply changed the list object it was given: {len(mpool)} -> {len(given)} individuals", [line, name, seedv, sname, k])
                     if not w3.verify(f"step[{sname}]", f"{sname}.apply on {name} population", [line, name, seedv, sname, k]):
                         break
+            # steps that ran under ANOTHER problem leave what the individuals cached for the first problem as it was
+            w2.verify("step[under another problem]", f"steps applied to the {name} population under a second problem (multi-objective, lexicase)",
+                      [line, name, seedv, "second-problem"])
             # (c) GP run, every generation snapshotted, all re-validated at the end
             if gi % 2 == 0:
                 rec = GenRecorder()
